@@ -581,3 +581,80 @@ Proof.
   - right. split; [reflexivity|]. intros pre suf Es Hm.
     pose proof (rx_match_complete _ _ _ _ _ E pre suf Es Hm) as Hk. discriminate.
 Qed.
+
+(* ------------------------------------------------------------------ ${v/p/w}: leftmost, and longest at that position *)
+
+Lemma star_greedy_map : forall (A B : Type) (g : A -> B) (k : str -> option A) s,
+  star_greedy (fun x => option_map g (k x)) s = option_map g (star_greedy k s).
+Proof.
+  intros A B g k. induction s as [|c s IH]; simpl; [reflexivity|].
+  rewrite IH. destruct (star_greedy k s); reflexivity.
+Qed.
+
+Lemma star_lazy_map : forall (A B : Type) (g : A -> B) (k : str -> option A) s,
+  star_lazy (fun x => option_map g (k x)) s = option_map g (star_lazy k s).
+Proof.
+  intros A B g k. induction s as [|c s IH]; simpl.
+  - destruct (k []); reflexivity.
+  - destruct (k (c :: s)); [reflexivity|]. exact IH.
+Qed.
+
+Lemma star_greedy_ext : forall (A : Type) (k1 k2 : str -> option A) s,
+  (forall x, k1 x = k2 x) -> star_greedy k1 s = star_greedy k2 s.
+Proof. intros A k1 k2 s H. induction s as [|c s IH]; simpl; [apply H|]. rewrite IH, H. reflexivity. Qed.
+
+Lemma star_lazy_ext : forall (A : Type) (k1 k2 : str -> option A) s,
+  (forall x, k1 x = k2 x) -> star_lazy k1 s = star_lazy k2 s.
+Proof. intros A k1 k2 s H. induction s as [|c s IH]; simpl; rewrite H; [reflexivity|]. rewrite IH. reflexivity. Qed.
+
+Lemma rx_match_map : forall (B : Type) (g : str -> B) lz a s,
+  rx_match lz a (fun rest => Some (g rest)) s = option_map g (rx_match lz a K_rest s).
+Proof.
+  intros B g lz a. induction a as [|t a IH]; intros s; simpl.
+  - reflexivity.
+  - destruct t.
+    + destruct s as [|d s]; [reflexivity|]. destruct (d =? c); [apply IH|reflexivity].
+    + destruct s as [|d s]; [reflexivity|]. apply IH.
+    + destruct lz.
+      * rewrite (star_lazy_ext _ _ (fun x => option_map g (rx_match true a K_rest x)) s IH). apply star_lazy_map.
+      * rewrite (star_greedy_ext _ _ (fun x => option_map g (rx_match false a K_rest x)) s IH). apply star_greedy_map.
+Qed.
+
+Theorem replace_first_correct : forall a w s,
+  let r := replace_first a w s in
+  (exists pre mid post, s = pre ++ mid ++ post /\ pmatch (toks a) mid /\ r = pre ++ w ++ post /\
+     (* leftmost position ... *)
+     (forall pre' mid' post', s = pre' ++ mid' ++ post' -> pmatch (toks a) mid' -> (length pre <= length pre')%nat) /\
+     (* ... and the longest match at that position *)
+     (forall mid' post', mid ++ post = mid' ++ post' -> pmatch (toks a) mid' -> (length mid' <= length mid)%nat))
+  \/ (r = s /\ forall pre mid post, s = pre ++ mid ++ post -> ~ pmatch (toks a) mid).
+Proof.
+  intros a w s. unfold replace_first, find_first. cbv zeta.
+  set (k := fun s1 : str => rx_match false a (fun rest : str => Some (length s1, length rest)) s1).
+  change (star_lazy (fun s1 : str => rx_match false a (fun rest : str => Some (length s1, length rest)) s1) s)
+    with (star_lazy k s).
+  destruct (star_lazy k s) as [[n1 n2]|] eqn:EL.
+  - destruct (star_lazy_some _ _ _ EL) as (pre & suf & Es & Hk & Hmin).
+    unfold k in Hk.
+    rewrite (rx_match_map _ (fun rest => (length suf, length rest)) false a suf) in Hk.
+    destruct (rx_match false a K_rest suf) as [rest|] eqn:ER; [|discriminate]. simpl in Hk. inversion Hk; subst n1 n2.
+    destruct (rx_match_sound _ _ _ _ _ _ ER) as (mid & post & E2 & Hm & Hk2). inversion Hk2; subst post.
+    left. exists pre, mid, rest. subst suf. split; [exact Es|]. split; [exact Hm|]. split; [|split].
+    + subst s. f_equal.
+      * replace (length (pre ++ mid ++ rest) - length (mid ++ rest))%nat with (length pre)
+          by (rewrite !app_length; lia).
+        rewrite firstn_app, Nat.sub_diag, firstn_all. simpl. apply app_nil_r.
+      * f_equal. replace (length (pre ++ mid ++ rest) - length rest)%nat with (length (pre ++ mid))
+          by (rewrite !app_length; lia).
+        rewrite app_assoc. rewrite skipn_app, Nat.sub_diag, skipn_all. reflexivity.
+    + intros pre' mid' post' Es' Hm'.
+      destruct (Nat.le_gt_cases (length pre) (length pre')) as [Hle|Hgt]; [exact Hle|exfalso].
+      pose proof (Hmin pre' (mid' ++ post') Es' Hgt) as Hn. unfold k in Hn.
+      pose proof (rx_match_complete _ _ _ _ _ Hn mid' post' eq_refl Hm'). discriminate.
+    + intros mid' post' E' Hm'.
+      pose proof (greedy_longest _ _ _ ER mid' post' E' Hm') as Hl.
+      apply (f_equal (@length N)) in E'. rewrite !app_length in E'. lia.
+  - right. split; [reflexivity|]. intros pre mid post Es Hm.
+    pose proof (proj1 (star_lazy_none k s) EL pre (mid ++ post) Es) as Hn. unfold k in Hn.
+    pose proof (rx_match_complete _ _ _ _ _ Hn mid post eq_refl Hm). discriminate.
+Qed.
